@@ -390,7 +390,8 @@ func (n *Net) Deliver(m *Msg) error {
 func (n *Net) WaitStable(rounds int) {
 	last := -1
 	same := 0
-	for i := 0; i < 2000 && same < rounds; i++ {
+	busyChecks := 0
+	for i := 0; i < 20000 && same < rounds; i++ {
 		n.mu.Lock()
 		cur := n.enqueued*1000 + n.active
 		n.mu.Unlock()
@@ -401,7 +402,28 @@ func (n *Net) WaitStable(rounds int) {
 			last = cur
 		}
 		time.Sleep(500 * time.Microsecond)
+		if same >= rounds && busyChecks < 400 && n.gossipersBusy() {
+			// on a loaded machine a gossiper goroutine that is about to send may not have run for milliseconds: the
+			// counters stand still although work is in progress. Stable only when no gossiper goroutine is runnable.
+			busyChecks++
+			same = 0
+			time.Sleep(5 * time.Millisecond)
+		}
 	}
+}
+
+// gossipersBusy: some goroutine of a gossiper, or a hand-over goroutine of the juggler, is running or runnable (as
+// opposed to blocked in a select, a channel operation, a lock or a sleep).
+func (n *Net) gossipersBusy() bool {
+	for _, g := range gmon.Dump() {
+		if !containsStr(g.Text, "Computantis/src/gossip.(*gossiper)") && !containsStr(g.Text, "pipe.(*Juggler).Send") {
+			continue
+		}
+		if len(g.State) >= 8 && (g.State[:8] == "runnable" || g.State[:7] == "running") {
+			return true
+		}
+	}
+	return false
 }
 
 // Quiescent is the logical end-of-execution test: nothing in flight, no handler active, and no goroutine of a
